@@ -286,8 +286,16 @@ RejectsWithRecognitionError ==
 
 \* C13: the reference does not depend on the order of mapping keys
 \* (values compared with mappings as sets of pairs)
+\* with a repeated key the order of a mapping's pairs is part of its meaning
+\* (the last one wins): such documents are outside the claim
+NoDupKeys(d) ==
+    \A n \in DOMAIN d.h : d.h[n].k = "m" =>
+        \A i, j \in DOMAIN d.h[n].c :
+            (i % 2 = 1 /\ j % 2 = 1 /\ i < j /\ d.h[d.h[n].c[i]].k = "s" /\ d.h[d.h[n].c[j]].k = "s")
+                => d.h[d.h[n].c[i]].v # d.h[d.h[n].c[j]].v
+
 KeyOrderIrrelevant ==
-    Terminal /\ doc0.r # 0 /\ ~Cyclic(doc0.h, doc0.r, {}) =>
+    Terminal /\ doc0.r # 0 /\ ~Cyclic(doc0.h, doc0.r, {}) /\ NoDupKeys(doc0) =>
         LET a == RefDoc(doc0)
             b == RefDoc(ReverseMaps(doc0)) IN
         /\ a[1] = b[1]
